@@ -156,6 +156,7 @@ type RunOut struct {
 	Counters    map[string]int   `json:"counters,omitempty"`
 	hist        *contHistory
 	cacheHist   []CRec
+	funcHist    *funcHist
 }
 
 // poster is implemented by workloads whose oracles need work outside the bubble
